@@ -3,7 +3,8 @@
 //! chain is replayed from the constructor; the enumeration is a tree cut at the first rejected
 //! call, with `solve()` tried after every accepted prefix.
 
-use crate::inst::{dispatch, make_deriv, make_vec, DerivBox, DtBounds, SimData, SolverBounds, StubHooks, Visitor};
+use crate::inst::{dispatch, make_deriv, make_vec, AsCalled, DerivBox, DtBounds, SimData, SolverBounds, StubHooks, Visitor};
+use bacon_sci::ivp::IVPIterator;
 use crate::model::{ErrClass, Expect, Model, Outcome};
 use crate::run::{execute, Budget, ExecOpts};
 use crate::spec::*;
@@ -263,6 +264,7 @@ where
     DefaultAllocator: Allocator<N, D>,
     S: IVPSolver<'static, D, Error = IVPError, Field = N, RealField = f64, UserData = U, Derivative = DerivBox<N, D, U>>
         + DtBounds
+        + AsCalled<N, D, U, Iter = IVPIterator<D, <S as IVPSolver<'static, D>>::Solver>>
         + 'static,
     S::Solver: SolverBounds,
 {
@@ -279,8 +281,8 @@ where
     crate::run::watch::beat();
     let exp = model.expect(ctor);
     let r = match ctor {
-        BOp::New => S::new(),
-        BOp::NewDyn(k) => S::new_dyn(*k as usize),
+        BOp::New => S::c_new(),
+        BOp::NewDyn(k) => S::c_new_dyn(*k as usize),
         _ => unreachable!(),
     };
     let mut b = match r {
@@ -309,14 +311,14 @@ where
         cs.calls += 1;
         let exp = model.expect(op);
         let r = match *op {
-            BOp::Tol(v) => b.with_tolerance(v),
-            BOp::Max(v) => b.with_maximum_dt(v),
-            BOp::Min(v) => b.with_minimum_dt(v),
-            BOp::Start(v) => b.with_initial_time(v),
-            BOp::End(v) => b.with_ending_time(v),
-            BOp::IcSlice => b.with_initial_conditions_slice(&initial_state::<N>(n, 1.0)),
-            BOp::IcVec => b.with_initial_conditions(make_vec::<N, D>(n, &initial_state::<N>(n, 1.0))),
-            BOp::Deriv => Ok(b.with_derivative(make_deriv::<N, D, U>(hooks.clone()))),
+            BOp::Tol(v) => b.c_tol(v),
+            BOp::Max(v) => b.c_max(v),
+            BOp::Min(v) => b.c_min(v),
+            BOp::Start(v) => b.c_start(v),
+            BOp::End(v) => b.c_end(v),
+            BOp::IcSlice => b.c_ic_slice(&initial_state::<N>(n, 1.0)),
+            BOp::IcVec => b.c_ic(make_vec::<N, D>(n, &initial_state::<N>(n, 1.0))),
+            BOp::Deriv => Ok(b.c_deriv(make_deriv::<N, D, U>(hooks.clone()))),
             _ => unreachable!(),
         };
         match r {
@@ -362,7 +364,7 @@ where
     // B5: solve after this prefix
     cs.calls += 1;
     let exp = model.expect(&BOp::Solve);
-    match b.solve(U::fresh()) {
+    match b.c_solve(U::fresh()) {
         Ok(it) => {
             cs.built += 1;
             // B7: the setters left minimum <= maximum, or at the latest solve() did
@@ -429,6 +431,7 @@ impl<'a> Visitor for EnumChains<'a> {
         DefaultAllocator: Allocator<N, D>,
         S: IVPSolver<'static, D, Error = IVPError, Field = N, RealField = f64, UserData = U, Derivative = DerivBox<N, D, U>>
             + DtBounds
+            + AsCalled<N, D, U, Iter = IVPIterator<D, <S as IVPSolver<'static, D>>::Solver>>
             + 'static,
         S::Solver: SolverBounds + 'static,
     {
@@ -750,6 +753,7 @@ impl<'a> Visitor for EvalOne<'a> {
         DefaultAllocator: Allocator<N, D>,
         S: IVPSolver<'static, D, Error = IVPError, Field = N, RealField = f64, UserData = U, Derivative = DerivBox<N, D, U>>
             + DtBounds
+            + AsCalled<N, D, U, Iter = IVPIterator<D, <S as IVPSolver<'static, D>>::Solver>>
             + 'static,
         S::Solver: SolverBounds + 'static,
     {
